@@ -227,11 +227,12 @@ impl Prop for C08 {
             Caught::Done(Ok(t)) => t,
             _ => return Outcome::discard("render_mismatch:rejected"),
         };
-        if crate::adapt::program(&tree) != c.prog {
-            return Outcome::discard("render_mismatch:tree");
-        }
+        // a mis-parsed text is C02's subject as such; here it is judged by its I/O behaviour all the same
+        let tree_differs = crate::adapt::program(&tree) != c.prog;
         let fuel = 10 * m.steps + 100;
-        let ctx = |what: &str| format!("{}\n--- stdin: {:?}\n--- program:\n{}", what, c.stdin, src);
+        let ctx = |what: &str| {
+            format!("{}\n--- stdin: {:?}\n--- program:\n{}{}", what, c.stdin, src, if tree_differs { "\n--- note: the parser's tree differs from the tree this text was rendered from" } else { "" })
+        };
         // ---- fault-free
         let base = match run_faulty(&tree, &c.stdin, None, None, fuel) {
             Ok(r) => r,
